@@ -475,6 +475,44 @@ pub fn run_sfs_fifo_at(args: &[&str], bytes: &[u8], suffix: &str, stdin: Stdin, 
     }
 }
 
+/// Runs `sfs` with every `{FIFO}` argument replaced by the path of a named pipe that a helper thread
+/// reads to its end; returns the run and the bytes that arrived through the pipe.
+pub fn run_sfs_output_fifo(args: &[&str], stdin: &[u8], suffix: &str, scratch: &Scratch) -> (Out, Vec<u8>) {
+    use std::io::Read;
+    use std::os::unix::fs::OpenOptionsExt;
+    use std::sync::{atomic::{AtomicBool, Ordering}, Arc};
+    let path = scratch.path(&format!(".ofifo{suffix}"));
+    let c = std::ffi::CString::new(path.to_str().unwrap()).unwrap();
+    // SAFETY: plain libc call with a valid NUL-terminated path.
+    if unsafe { libc::mkfifo(c.as_ptr(), 0o600) } != 0 {
+        eprintln!("ENGINE: mkfifo {} failed", path.display());
+        std::process::exit(2);
+    }
+    let a: Vec<&str> = args.iter().map(|x| if *x == "{FIFO}" { path.to_str().unwrap() } else { *x }).collect();
+    let done = Arc::new(AtomicBool::new(false));
+    let (rpath, rdone) = (path.clone(), done.clone());
+    let reader = std::thread::spawn(move || {
+        let mut v = Vec::new();
+        // blocks until the subject (or the release below) opens the FIFO for writing
+        if let Ok(mut f) = fs::File::open(&rpath) {
+            let _ = f.read_to_end(&mut v);
+        }
+        rdone.store(true, Ordering::SeqCst);
+        v
+    });
+    let o = run_sfs(&a, Stdin::Bytes(stdin), scratch);
+    // release a helper that is still blocked because the subject never opened the FIFO
+    let mut spins = 0;
+    while !done.load(Ordering::SeqCst) && spins < 5000 {
+        let _ = fs::OpenOptions::new().write(true).custom_flags(libc::O_NONBLOCK).open(&path);
+        std::thread::sleep(std::time::Duration::from_millis(1));
+        spins += 1;
+    }
+    let got = reader.join().unwrap_or_default();
+    let _ = fs::remove_file(&path);
+    (o, got)
+}
+
 /// Runs `sfs` with stdout connected to the file at `sink` (e.g. `/dev/full`); stdout is then not captured.
 pub fn run_sfs_stdout_to(args: &[&str], stdin: &[u8], sink: &Path, scratch: &Scratch) -> Out {
     let inp = scratch.file(".stdin", stdin);
